@@ -35,6 +35,12 @@ pub enum ChildRes {
 }
 
 pub fn run_child(bin: &str, case: &Case, tmp: &str, timeout_s: u64) -> ChildRes {
+    run_child_backend(bin, case, tmp, timeout_s, false)
+}
+
+/// `threads`: force the parked-OS-thread backend (every simulated thread has its own OS thread, hence its own
+/// `thread_local!` state, as real callers would).
+pub fn run_child_backend(bin: &str, case: &Case, tmp: &str, timeout_s: u64, threads: bool) -> ChildRes {
     let _ = std::fs::create_dir_all(tmp);
     let path = format!("{}/cand-{}.json", tmp, std::process::id());
     std::fs::write(&path, serde_json::to_string(case).unwrap()).expect("write candidate");
@@ -44,6 +50,7 @@ pub fn run_child(bin: &str, case: &Case, tmp: &str, timeout_s: u64) -> ChildRes 
         .stdout(Stdio::piped())
         .stderr(Stdio::piped())
         .env("ASAN_OPTIONS", "detect_leaks=0:abort_on_error=1:allow_user_segv_handler=1:handle_segv=0:handle_sigbus=0:handle_sigill=0")
+        .env("RFSIM_BACKEND", if threads { "threads" } else { "default" })
         .spawn()
     {
         Ok(c) => c,
@@ -368,6 +375,15 @@ pub fn minimise_and_write(bin: &str, case: &mut Case, viol: &Violation, prop: &s
     let conf = run_child(bin, case, tmp, 120);
     if has_class(prop, &conf, &class).is_none() {
         return Err("minimised case does not reproduce".into());
+    }
+    // With coroutines all simulated threads share one OS thread and with it every `thread_local!` of the code under test.
+    // Before a multi-thread violation is reported, the same case with the same pinned schedule must show it with one OS
+    // thread per simulated thread; otherwise it is an artefact of the shared thread-locals and is dropped (and counted).
+    if crate::sched::use_coroutines() && case.threads.iter().filter(|t| !t.is_empty()).count() > 1 {
+        let conf2 = run_child_backend(bin, case, tmp, 300, true);
+        if has_class(prop, &conf2, &class).is_none() {
+            return Err(format!("ARTEFACT: class {} shows with coroutines (simulated threads sharing one OS thread and its thread-locals) but not with one OS thread per simulated thread under the same schedule", class));
+        }
     }
     let switches = if let Policy::Replay(l) = &case.policy { l.len() } else { 0 };
     let rf = ReplayFile {
